@@ -194,6 +194,20 @@ def make_spec(stream, rng, edge_index=None):
         tot = sum(o["rate"] * o["duration"] for o in spec["observations"])
         spec["hot"]["capacity"] = int(tot / 0.6) + 5
         spec["cold"]["capacity"] = spec["hot"]["capacity"]
+    elif stream == "overcommit" and edge_index is not None and edge_index % 3 == 2:
+        # K5 shape: several observations stored above the tiering threshold, a cold tier that holds any one of
+        # them but not all: the buffer loop starts one hot->cold move per step while the earlier ones are in flight
+        spec = simgen.gen_spec(rng, pairing="queue")
+        n = 3
+        r = rng.choice([20, 30, 40])
+        wf = lambda: {"nodes": [{"id": 0, "comp": 1}], "edges": []}
+        spec["machines"] = [{"id": "m%d" % i, "flops": 1, "bw": 1} for i in range(n)]
+        spec["total_arrays"], spec["max_ingest"] = n, n
+        spec["observations"] = [{"name": nm, "start": 0, "duration": 1, "demand": 1, "rate": r, "ingest_demand": 1,
+                                 "workflow": wf()} for nm in "abc"]
+        spec["hot"] = {"capacity": n * r + rng.choice([10, 20]), "rate": 50}
+        spec["cold"] = {"capacity": 3 * r - rng.choice([5, 10]), "rate": rng.choice([5, 10])}
+        spec["delay"] = None
     elif stream == "overcommit":
         spec = simgen.gen_spec(rng, pairing=rng.choice(["queue", "batch"]))
         if len(spec["observations"]) < 2:
